@@ -56,6 +56,7 @@ def dispatch (line : String) : String :=
   | "C17" :: rest => ErrorM.handle rest
   | "C06" :: "emit" :: rest => Emit.handle Gen.Keywords.escaped ("emit" :: rest)
   | "C06" :: rest => Body.handle rest
+  | "C18" :: "emit" :: rest => Emit.handle Gen.Keywords.escaped ("emit" :: rest)
   | "C18" :: rest => Body.handle rest
   | "C08" :: rest => LogSafety.handle rest
   | "C11" :: rest => Negotiate.handle rest
